@@ -169,10 +169,53 @@ class _Guarded:
         return _guard(self.fn, job)
 
 
+class _JobTimeout(BaseException):
+    pass
+
+
+def _job_alarm(signum, frame):
+    raise _JobTimeout()
+
+
+JOB_TIMEOUT = int(os.environ.get('VERIF_JOB_TIMEOUT', '1500'))
+
+
 def _guard(fn, job):
+    import signal
+    armed = False
+    try:
+        # a job that never returns (code under test looping on a generated input) must not hang the whole check
+        signal.signal(signal.SIGALRM, _job_alarm)
+        signal.alarm(JOB_TIMEOUT)
+        armed = True
+    except Exception:
+        pass
+    try:
+        return _guard_inner(fn, job)
+    except _JobTimeout:
+        a = Acc()
+        a.count('harness_errors')
+        a.caps.append(f'HARNESS-ERROR in worker: job did not finish within {JOB_TIMEOUT} s: {fn.__name__} job=' + repr(job)[:300])
+        return a.dump()
+    finally:
+        if armed:
+            signal.alarm(0)
+
+
+def _guard_inner(fn, job):
     try:
         r = fn(job)
-        return r.dump() if isinstance(r, Acc) else r
+        d = r.dump() if isinstance(r, Acc) else r
+        # remember which job produced each violation: a violation that depends on what the same process did before (a cache, shared state)
+        # cannot be reproduced from the single case, but re-running the whole job in a fresh process can (run.py --replay falls back to that)
+        acc_d = d.get('acc') if isinstance(d, dict) and 'acc' in d and 'viol' not in d else d
+        try:
+            for v in acc_d.get('viol', []):
+                v.setdefault('job_fn', getattr(fn, '__name__', None))
+                v.setdefault('job', jsonable(job))
+        except Exception:
+            pass
+        return d
     except Exception:
         # a crash of the harness itself must never look like a verdict
         a = Acc()
@@ -202,6 +245,17 @@ def load_known(path=KNOWN_FILE):
         if m:
             fixed.append({'property': m.group(1), 'commit': m.group(2), 'what': m.group(3)})
     return findings, fixed
+
+
+def revive(o):
+    """inverse of jsonable() for job descriptions: ['g', text] rows of a history become tuples again"""
+    if isinstance(o, list):
+        if len(o) == 2 and o[0] == 'g' and isinstance(o[1], str):
+            return ('g', o[1])
+        return [revive(x) for x in o]
+    if isinstance(o, dict):
+        return {k: revive(v) for k, v in o.items()}
+    return o
 
 
 def slug(s, n=60):
